@@ -49,7 +49,7 @@ def in_domain(ant):
     return True
 
 
-def structure_class(ant, loads):
+def structure_class(ant, loads, env=None):
     """classes of the known findings: unequal segment lengths / radii at a junction, insulated wires, branching
     junctions with segments longer than 1/15 wavelength"""
     segs = [np.linalg.norm(np.array(w['p1']) - np.array(w['p0'])) / w['nseg'] for w in ant['wires']]
@@ -67,6 +67,13 @@ def structure_class(ant, loads):
             ends[k] = ends.get(k, 0) + 1
     if max(ends.values()) >= 3 and max(segs) > ant['lam'] / 15:
         cls.append('coarse-segments-at-branching-junction')
+    # a mostly horizontal wire lower than 0.15 wavelength over real (lossy) ground
+    if env in ('real1', 'real2', 'radials'):
+        for w in ant['wires']:
+            d = np.array(w['p1']) - np.array(w['p0'])
+            if abs(d[2]) < 0.5 * np.linalg.norm(d) and (w['p0'][2] + w['p1'][2]) / 2 < 0.15 * ant['lam']:
+                cls.append('low-horizontal-wire-over-real-ground')
+                break
     return cls
 
 
@@ -223,7 +230,7 @@ def run(ck):
         if r['cond'] > 1e5:
             ck.count('skipped_cond')
             continue
-        cls = structure_class(case['ant'], case['loads'])
+        cls = structure_class(case['ant'], case['loads'], case.get('env'))
         mode = '+'.join(sorted(set(k for k, _, _ in case['loads']))) or 'none'
         ck.case((case['ant']['family'], case['env'], mode, len(case['srcs']), bool(cls), i), True,
                 sample=dict(family=case['ant']['family'], env=case['env'], loads=mode, sources=len(case['srcs']), finding_class=cls))
